@@ -2,8 +2,8 @@ SPECIFICATION Spec
 CONSTANTS D = 2
           NPre = 4
           NE = 4
-          EMin = 1
-          EMax = 3
+          EnSet <- E123
+          TMax = 12
           Dirs = {"ltr", "rel"}
           Caps = {1, 2, 3, 99}
           Canon = TRUE
